@@ -239,12 +239,14 @@ func c12Exec(fl c12Flavor, nconn int, hist []c12Ev) (string, string, string) {
 	}
 	p := w.S.Proxies()[0]
 	// the transport table: keys and which side is set (connection identity is covered by the model state)
-	var keys []string
-	for k, t := range p.clientTransMgr.transports {
-		keys = append(keys, fmt.Sprintf("%s:%v:%v", k, t.primary != nil, t.secondary != nil))
+	keys, ok1 := wbTransports(p)
+	rot, ok2 := wbRotation(w.S.RoundRobins()[0])
+	if !ok1 || !ok2 {
+		b.WriteString("wb:" + wbDump(p) + wbDump(w.S.RoundRobins()[0]))
+		return b.String(), "", ""
 	}
-	b.WriteString(strings.Join(sortedStrs(keys), ";"))
-	fmt.Fprintf(&b, "|rr=%d", w.S.RoundRobins()[0].index)
+	b.WriteString(strings.ReplaceAll(strings.Join(keys, ";"), "\x00", ":"))
+	fmt.Fprintf(&b, "|rr=%d", rot.Index)
 	return b.String(), "", ""
 }
 
